@@ -15,6 +15,7 @@ from harness.core import Result
 
 LEVEL = "exploration"
 RULES = {
+    "atheris": "thorough tier: Atheris/libFuzzer coverage-guided campaign; bytes are decoded into the same structured case and judged by the same oracle inside the target (half of the jobs start from an empty corpus, half from two small valid inputs)",
     "history": "Hypothesis: histories of up to 12 mutations (item assignment, append, update with mapping / pairs / keywords / another "
     "header mapping, setdefault, delete) on the header mapping of a response with keys/values over an alphabet weighted to CR, LF, "
     "NUL, ';', ',', '=', quotes, DEL, U+0085, non-ASCII; then set_cookie/delete_cookie with hostile names/values and the response is "
@@ -363,6 +364,18 @@ def exh_cases():
                     yield {"response": "empty", "ops": [], "cookies": [{"name": k, "value": "v", "delete": True}]}
 
 
+def oracle_atheris(case) -> Result:
+    """Replay / triage oracle for inputs found by the Atheris campaign: decode the bytes like the fuzz target does."""
+    from fuzz import targets
+
+    res = oracle(targets.CASES["C13"](case["data"]))
+    res.label("atheris")
+    return res
+
+
+SUBS["atheris"] = oracle_atheris
+
+
 def run(rec, only=None):
     quick = rec.tier == "quick"
     core.drive_cases(rec, "exh", exh_cases(), oracle)
@@ -370,3 +383,8 @@ def run(rec, only=None):
     core.drive_hypothesis(rec, "history", history_case(), oracle, 1500 if quick else 30000)
     core.drive_hypothesis(rec, "redirect", redirect_case(), oracle_redirect, 1500 if quick else 30000, seed_offset=2)
     rec.exhaustive["history"] = rec.exhaustive["redirect"] = False
+    if not quick:
+        # coverage-guided second engine (Atheris / libFuzzer), same oracle inside the target
+        from fuzz import driver
+
+        driver.campaign(rec, "C13", oracle_atheris, runs=200000, seeds=[b"\x01\x00\x02ab=c;d", b"\x02\x01\x09\x03abc\r\n\x05hello"], max_total_time=120, jobs=4)
